@@ -564,9 +564,14 @@ theorem remFuel_canonical (fuel : Nat) (x y r : Flt) (hF : x.sem.WF) (hs : y.sem
       have := remLoop_canonical fuel x.abs _ r0 hF hrhs.2 hx hrhs.1 h0
       exact ⟨this.1, this.2⟩
 
-theorem sqrtLoop_canonical (fuel : Nat) (target x prev r : Flt) (hF : x.sem.WF)
-    (hts : target.sem = x.sem) (hx : x.Canonical) (h : sqrtLoop fuel target x prev = some r) :
-    r.Canonical ∧ r.sem = x.sem := by
+theorem Sem.increaseExponent_WF {s : Sem} (h : s.WF) (k : Nat) : (s.increaseExponent k).WF := by
+  have := h.1
+  exact ⟨by simp only [Sem.increaseExponent]; omega, h.2⟩
+
+theorem sqrtLoop_canonical (sem : Sem) (hS : sem.WF) (fuel : Nat) (target x prev r : Flt)
+    (hF : x.sem.WF) (hts : target.sem = x.sem) (hx : x.Canonical)
+    (h : sqrtLoop sem fuel target x prev = some r) :
+    r.Canonical ∧ r.sem = sem := by
   induction fuel generalizing x prev with
   | zero => simp [sqrtLoop] at h
   | succ fuel ih =>
@@ -576,9 +581,8 @@ theorem sqrtLoop_canonical (fuel : Nat) (target x prev r : Flt) (hF : x.sem.WF)
     have hsc := scale_canonical (x.add (target.div x)) (-1) .nte (by rw [ha.2]; exact hF) ha.1
     have hsem : ((x.add (target.div x)).scale (-1) .nte).sem = x.sem := hsc.2.trans ha.2
     split at h
-    · cases h; exact ⟨hsc.1, hsem⟩
-    · have := ih _ _ (by rw [hsem]; exact hF) (hts.trans hsem.symm) hsc.1 h
-      exact ⟨this.1, this.2.trans hsem⟩
+    · cases h; exact cast_canonical _ sem hS hsc.1
+    · exact ih _ _ (by rw [hsem]; exact hF) (hts.trans hsem.symm) hsc.1 h
 
 theorem sqrtFuel_canonical (fuel : Nat) (x r : Flt) (hF : x.sem.WF) (hx : x.Canonical)
     (h : x.sqrtFuel fuel = some r) : r.Canonical ∧ r.sem = x.sem := by
@@ -589,14 +593,18 @@ theorem sqrtFuel_canonical (fuel : Nat) (x r : Flt) (hF : x.sem.WF) (hx : x.Cano
     · cases h; exact ⟨Flt.nan_canonical _ _, rfl⟩
     · split at h
       · cases h; exact ⟨hx, rfl⟩
-      · have h2 := fromU64_canonical x.sem 2 hF
-        have h0 : (if x.lt (fromU64 x.sem 2) then fromU64 x.sem 2 else x).Canonical ∧
-            (if x.lt (fromU64 x.sem 2) then fromU64 x.sem 2 else x).sem = x.sem := by
+      · have hW : (x.sem.increaseExponent 1).WF := Sem.increaseExponent_WF hF 1
+        have h2 := fromU64_canonical (x.sem.increaseExponent 1) 2 hW
+        have ht := castWithRm_canonical x (x.sem.increaseExponent 1) .zero hW hx
+        have h0 : (if (x.castWithRm (x.sem.increaseExponent 1) .zero).lt (fromU64 (x.sem.increaseExponent 1) 2)
+              then fromU64 (x.sem.increaseExponent 1) 2 else x.castWithRm (x.sem.increaseExponent 1) .zero).Canonical ∧
+            (if (x.castWithRm (x.sem.increaseExponent 1) .zero).lt (fromU64 (x.sem.increaseExponent 1) 2)
+              then fromU64 (x.sem.increaseExponent 1) 2 else x.castWithRm (x.sem.increaseExponent 1) .zero).sem
+              = x.sem.increaseExponent 1 := by
           split
           · exact h2
-          · exact ⟨hx, rfl⟩
-        have := sqrtLoop_canonical fuel x _ _ r (by rw [h0.2]; exact hF) h0.2.symm h0.1 h
-        exact ⟨this.1, this.2.trans h0.2⟩
+          · exact ht
+        exact sqrtLoop_canonical x.sem hF fuel _ _ _ r (by rw [h0.2]; exact hW) (ht.2.trans h0.2.symm) h0.1 h
 
 /-! ### The value determines the representation (for `PartialEq`) -/
 
